@@ -55,6 +55,14 @@ Theorem C20_wanted :
 Proof. exact PortP.C20_wanted. Qed.
 Print Assumptions C20_wanted.
 
+(* The closure handed to serial_core's reconfigure sets all five fields: whatever read_settings returned (the device's
+   present settings, stale ones, anything at all), what is written back is 19200 8N1 without flow control. *)
+Check eq_refl : apply_setters = fun s : settings =>
+  set_flow (set_stop (set_parity (set_csize (set_baud s Baud19200) Bits8) ParityNone) Stop1) FlowNone.
+Theorem C20_setters_cover_every_field : forall s, apply_setters s = wanted.
+Proof. exact PortP.apply_setters_wanted. Qed.
+Print Assumptions C20_setters_cover_every_field.
+
 Theorem C20_ok_means_configured :
   forall p t p', configure_port p t = Ok p' ->
   sp_settings p' = wanted /\ sp_timeout p' = Some t /\ sp_fail p = FailNone /\ timeout_accepted p t = true.
